@@ -420,6 +420,18 @@ package lua
 //@ ensures  L.stack == old(L.stack) && (old(L.stack) != nil && old($inv(L.stack)) ==> $inv(L.stack))
 //@ modifies everything
 
+// The deferred recovery of threadRun as a defer unit: an error (Lua error or foreign Go panic) inside a coroutine body is
+// converted into a value - the error object of an *ApiError, else the printed panic value, for ANY recovered value (the
+// type assertion is comma-ok) - and handed to the resumer as (false, value) by switchToParentThread(L, 1, true, true),
+// whose own contract says: the coroutine is killed, control and the flag false plus exactly that value go to the resumer.
+//@ func threadRun$1 [C06]
+//@ assume threadRun recovery: when the deferred closure runs, the coroutine has a resumer, a current frame and intact representation invariants (whole-execution facts, assumed)
+//@ requires L != nil && Inv_api(L) && L.G != nil && L.currentFrame != nil && L.currentFrame.Fn != nil && L.stack != nil && $inv(L.stack) && $sp(L.stack) >= 1
+//@ requires L.Parent != nil && Inv_api(L.Parent) && L.Parent != L && L.Parent.reg != L.reg && arrid(L.Parent.reg.array) != arrid(L.reg.array) && L.Parent.currentFrame != L.currentFrame
+//@ requires 0 <= L.currentFrame.ReturnBase && L.currentFrame.ReturnBase <= L.currentFrame.LocalBase
+//@ assert@"switchToParentThread(L, 1, true, true)" top(L) == base(L) + 1 && L.reg.array[base(L)] == lv && !L.wrapped
+//@ modifies everything
+
 // LState.Resume (Go API), verified from the call of threadRun onwards: the values delivered by the coroutine are collected
 // and the resumer's own stack is restored to what it was before the resume on EVERY outcome (ok, yield, error)
 //@ func (*LState).Resume [C06]
